@@ -1012,11 +1012,16 @@ def omp_loop_head(tu, f, li):
     return False
 
 
-def check_impl(ctx, tu, f, cfgname, chains, depth=0, signs_in=None):
+def check_impl(ctx, tu, f, cfgname, chains, depth=0, signs_in=None, omp_outer=()):
     """signs_in: signs of the count that can reach this function (a dispatch helper is analysed under the guard its only
-    caller establishes; the entry point itself is analysed for every count of its type)"""
+    caller establishes; the entry point itself is analysed for every count of its type)
+    omp_outer: the OpenMP directives (innermost first) of the caller(s) around the call of this dispatch helper: the helper runs
+    inside those regions, its own constructs bind to them"""
     R1, R2 = 'R-C01-1', 'R-C01-2'
-    memo_key = (id(tu), f['id'], cfgname, ''.join(sorted(signs_in)) if signs_in is not None else None)
+    omp_outer = list(omp_outer)
+    outer_ids = {d_['id'] for d_ in omp_outer}
+    memo_key = (id(tu), f['id'], cfgname, ''.join(sorted(signs_in)) if signs_in is not None else None,
+                tuple(d_['id'] for d_ in omp_outer))
     if memo_key in _IMPL_DONE:
         return _IMPL_DONE[memo_key]
     _IMPL_DONE[memo_key] = {'helper'}
@@ -1181,13 +1186,13 @@ def check_impl(ctx, tu, f, cfgname, chains, depth=0, signs_in=None):
     # ---- loops (one per dispatch arm, e.g. selected by omp_in_parallel())
     omp_all = [n for n in fn_stmts(tu, f) if n.get('kind', '').startswith('OMP') and n.get('kind', '').endswith('Directive')]
 
-    def enclosing_omp(term_id):
+    def enclosing_omp(term_id, local_only=False):
         anc_ = []
         for d_ in omp_all:
             ids_ = [x.get('id') for x in tu.walk(d_)]
             if term_id in ids_:
                 anc_.append((len(ids_), d_))
-        return [d_ for sz_, d_ in sorted(anc_, key=lambda z: z[0])]
+        return [d_ for sz_, d_ in sorted(anc_, key=lambda z: z[0])] + ([] if local_only else omp_outer)
 
     def replicated(anc_):
         """the loop statement is executed by every thread of a parallel region (no worksharing / tasking construct owns it)"""
@@ -1197,8 +1202,21 @@ def check_impl(ctx, tu, f, cfgname, chains, depth=0, signs_in=None):
                 return d_
             if nm_ in OMP_TRANSPARENT:
                 continue
+            if nm_ not in OMP_WORKSHARE and d_['id'] not in outer_ids:
+                # a complete fork-join / task-generating construct of this helper - but the helper itself is called by every
+                # thread of the caller's parallel region, so the whole construct is executed once per thread of that team
+                for o_ in omp_outer:
+                    if tu.sd(o_).get('directive') == 'parallel':
+                        return o_
+                    if tu.sd(o_).get('directive') not in OMP_TRANSPARENT:
+                        break
             return None
         return None
+    REPL_TEXT = lambda region_: (
+        'the loop is inside a plain `omp parallel` region without a worksharing construct: every thread of the team runs all '
+        'indices, each index is invoked once per thread' if region_['id'] not in outer_ids else
+        'this helper is called by every thread of the `omp parallel` region at %s and its loop is not a worksharing construct of '
+        'that region: every thread of the team runs all indices, each index is invoked once per thread' % tu.loc(region_))
     heads_ = sorted({t for s_, t in g.back_edges()})
     nested_ = any(h1 != h2 and h2 in natural_loop(g, h1) for h1 in heads_ for h2 in heads_)
     loops = []
@@ -1216,9 +1234,7 @@ def check_impl(ctx, tu, f, cfgname, chains, depth=0, signs_in=None):
                 if li0 is not None and not li0.undecided and not any(k_ in ('start', 'step') for k_, t_, n_ in li0.problems):
                     # the ordinary loop over [0, n), but executed by every thread of the region
                     li_ = li0
-                    li_.problems.append(('omp-loop-replicated', 'the loop is inside a plain `omp parallel` region without a worksharing '
-                                         'construct: every thread of the team runs all indices, each index is invoked once per thread',
-                                         region))
+                    li_.problems.append(('omp-loop-replicated', REPL_TEXT(region), region))
                 else:
                     li_ = analyse_counting_loop(tu, f, g, {fpath}, TNUM, Lin.atom(('p', ppath)), head=h_, free_step=True)
                     spmd[id(li_)] = region
@@ -1233,12 +1249,11 @@ def check_impl(ctx, tu, f, cfgname, chains, depth=0, signs_in=None):
             start_is_zero = any(k_ == 'start' and 'instead of' in t_ for k_, t_, n_ in li.problems) or \
                 (li.init_node is not None and lin(tu, li.init_node) == Lin.const(0))
             TEAM = Lin.atom(('call', 'omp_get_num_threads', ()))
-            inside = lambda n_: n_ is not None and any(x.get('id') == n_.get('id') for x in tu.walk(region))
+            inside = lambda n_: n_ is not None and (region['id'] in outer_ids or
+                                                   any(x.get('id') == n_.get('id') for x in tu.walk(region)))
             if start_is_zero and li.step_lin == Lin.const(1):
                 li.problems = [(k_, t_, n_) for k_, t_, n_ in li.problems if k_ != 'start']
-                li.problems.append(('omp-loop-replicated', 'the loop is inside a plain `omp parallel` region without a worksharing '
-                                    'construct: every thread of the team runs all indices, each index is invoked once per thread',
-                                    region))
+                li.problems.append(('omp-loop-replicated', REPL_TEXT(region), region))
             elif li.step_lin == TEAM and inside(li.step_node):
                 pass
             elif li.step_lin is not None and li.step_lin != TEAM:
@@ -1275,9 +1290,25 @@ def check_impl(ctx, tu, f, cfgname, chains, depth=0, signs_in=None):
     joks = []
     omp_clause_jobs = []
     omp = [n for n in fn_stmts(tu, f) if n.get('kind', '').startswith('OMP') and n.get('kind', '').endswith('Directive')]
-    if omp:
+    helper_ctx = {}
+    if omp or omp_outer:
         kinds.add('omp')
         used = set()
+        # a dispatch helper called inside a plain `omp parallel` region: every thread of the team calls it, the helper is
+        # analysed as running inside that region (its worksharing constructs bind to it, the region's end is the join)
+        for n_, cf_ in helper_calls:
+            canc = enclosing_omp(n_['id'], local_only=True)
+            if not canc:
+                helper_ctx[n_['id']] = omp_outer
+            elif all(tu.sd(d).get('directive') == 'parallel' for d in canc):
+                helper_ctx[n_['id']] = canc + omp_outer
+                for d in canc:
+                    used.add(d['id'])
+                omp_clause_jobs.append((n_['id'], canc))
+            else:
+                helper_ctx[n_['id']] = None
+                und.append('the dispatch helper `%s` is called inside `omp %s`: not followed' %
+                           (cf_['q'].split('::')[-1], tu.sd(canc[0]).get('directive', canc[0]['kind'])))
         for li in loops:
             if li.header is None or li.undecided:
                 continue
@@ -1290,7 +1321,8 @@ def check_impl(ctx, tu, f, cfgname, chains, depth=0, signs_in=None):
             anc = [d for sz, d in sorted(anc, key=lambda z: z[0])]
             for d in anc:
                 used.add(d['id'])
-            omp_clause_jobs.append((li, anc))
+            omp_clause_jobs.append((li.decl_stmt, anc))
+            anc = anc + omp_outer
             verdict = omp_join(tu, g, anc)
             if verdict[0] == 'ok':
                 if anc:
@@ -1318,8 +1350,8 @@ def check_impl(ctx, tu, f, cfgname, chains, depth=0, signs_in=None):
     for k, t in once_verdict(exits, und):
         problems.append((k, t, None))
     # ---- OpenMP clauses that take a value: it must be valid for every count that reaches the directive
-    for li_, anc_ in omp_clause_jobs:
-        sg_ = set(seen.get(li_.decl_stmt, sg0)) if li_.decl_stmt else set(sg0)
+    for at_, anc_ in omp_clause_jobs:
+        sg_ = set(seen.get(at_, sg0)) if at_ else set(sg0)
         lo_, hi_ = range_for_signs(nct, sg_)
         for d_ in anc_:
             cls = tu.sd(d_).get('clauses', [])
@@ -1360,7 +1392,10 @@ def check_impl(ctx, tu, f, cfgname, chains, depth=0, signs_in=None):
                     und.append('cannot show that the value of the OpenMP clause `%s(%s)` is positive' % (cname, tu.show(exprs[0])))
     for n_, cf_ in helper_calls:
         # the helper only ever sees the counts that pass the guards in front of this call
-        sub = check_impl(ctx, tu, cf_, cfgname, chains, depth + 1, signs_in=set(seen.get(n_['id'], sg0)))
+        if n_['id'] in helper_ctx and helper_ctx[n_['id']] is None:
+            continue
+        sub = check_impl(ctx, tu, cf_, cfgname, chains, depth + 1, signs_in=set(seen.get(n_['id'], sg0)),
+                         omp_outer=helper_ctx.get(n_['id'], omp_outer))
         if not sub:
             und.append('the dispatch helper `%s` is not decided' % cf_['q'].split('::')[-1])
     for u in sorted(set(und)):
